@@ -7,6 +7,7 @@ D: model (vm_compute) vs implementation for the limit decisions, the member even
 from __future__ import annotations
 
 import inspect
+from pathlib import Path
 import io
 import json
 import os
@@ -67,13 +68,34 @@ def d_limits(ctx, lim):
                 fp = os.path.join(td, f"f_{L}_{s}.txt")
                 with open(fp, "wb") as fh:
                     fh.write(b"x" * s)
-                refused = False
+                # the limit is about the size of the FILE that is read, however the path names it
+                forms = [("plain", fp)]
                 try:
-                    list(sharepoint2text.read_file(fp, max_file_size=L))
-                except ExtractionFileTooLargeError:
-                    refused = True
-                except Exception:  # noqa
+                    lk = os.path.join(td, f"l_{L}_{s}.txt")
+                    os.symlink(fp, lk)
+                    forms.append(("symlink", lk))
+                    lk2 = os.path.join(td, f"ll_{L}_{s}.txt")
+                    os.symlink(os.path.basename(lk), lk2)
+                    forms.append(("symlink-chain-relative", lk2))
+                    forms.append(("pathlib", Path(fp)))
+                    forms.append(("dot-segments", os.path.join(td, ".", "..", os.path.basename(td), os.path.basename(fp))))
+                except OSError:
                     pass
+                outcomes = {}
+                for form, arg in forms:
+                    r_ = False
+                    try:
+                        list(sharepoint2text.read_file(arg, max_file_size=L))
+                    except ExtractionFileTooLargeError:
+                        r_ = True
+                    except Exception:  # noqa
+                        pass
+                    outcomes[form] = r_
+                refused = outcomes["plain"]
+                for form, r_ in outcomes.items():
+                    if r_ != refused:
+                        ctx.finding(f"read_file-limit:access-form:{form}", f"read_file(max_file_size={L}) on a {s}-byte file reached through "
+                                    f"'{form}': refused={r_}, through the plain path: {refused}", {"max_file_size": L, "size": s, "form": form})
                 ctx.case(("read_file", L, s), abs(s - abs(L)) <= 1, kind="limit:read_file")
                 cases.append(f"({L}, {s}, {'true' if refused else 'false'})%Z")
                 info.append((L, s, refused))
@@ -490,15 +512,18 @@ def d_ole(ctx):
         return
 
     class FakeOle:
-        def __init__(self, name, data):
-            self.name, self.data = name, data
+        def __init__(self, name, data, other=None):
+            self.streams = {name: data}
+            if other is not None:
+                self.streams[other[0]] = other[1]
 
         def exists(self, n):
-            return n == self.name
+            return n in self.streams
 
         def openstream(self, n):
-            return io.BytesIO(self.data)
+            return io.BytesIO(self.streams[n])
     cases, info = [], []
+    prev_stream = None
     for it in range(ctx.n(300, 3000)):
         nprops = rng.choice([0, 1, 2, 3, 5, 2 ** 32 - 1, rng.randint(0, 12)])
         real = rng.randint(0, 5)
@@ -520,6 +545,32 @@ def d_ole(ctx):
         if rng.random() < 0.15:
             data = data[: rng.randint(0, len(data))]
         name = rng.choice(["\x05SummaryInformation", "\x05DocumentSummaryInformation"])
+        # BOTH property-set streams are guarded: the decision for a container holding two streams is the conjunction of
+        # the decisions for each of them (the previous case's stream is placed under the other name)
+        if prev_stream is not None and it % 2:
+            other_name = "\x05DocumentSummaryInformation" if name == "\x05SummaryInformation" else "\x05SummaryInformation"
+            def single(nm, dt):
+                try:
+                    fn(FakeOle(nm, dt))
+                    return True
+                except ValueError:
+                    return False
+                except Exception:  # noqa
+                    return None
+            a_, b_ = single(name, data), single(other_name, prev_stream)
+            try:
+                fn(FakeOle(name, data, (other_name, prev_stream)))
+                both = True
+            except ValueError:
+                both = False
+            except Exception:  # noqa
+                both = None
+            ctx.case(("ole2", data, prev_stream), True, kind="ole:two-streams")
+            if a_ is not None and b_ is not None and both != (a_ and b_):
+                ctx.finding("ole-guard-two-streams", f"_check_property_vectors on a container with both property-set streams says {both}; "
+                            f"alone the streams are judged {a_} ({name!r}) and {b_} ({other_name!r})",
+                            {"stream_a": data, "name_a": name, "stream_b": prev_stream, "name_b": other_name})
+        prev_stream = data
         try:
             fn(FakeOle(name, data))
             ok_ = True
